@@ -142,6 +142,43 @@ def ob_permutation_values(n):
     return f
 
 
+def ob_permutation_int_keys(n):
+    """integer key vectors (ties, out-of-range values) are finite inputs too"""
+    def f():
+        with env(rng_layer()):
+            items = ITEMS[n]
+            v = M.PermutationVariable(name="p", items=list(items))
+            x = [sym.integer(f"k{i}", -2, n + 1) for i in range(n)]
+            r = perm_laws(v, n, x, items)
+            if r is not OK:
+                return r
+            y = v.correct(x)
+            for a in range(n):
+                for b in range(n):
+                    if x[a] < x[b] and not y[a] < y[b]:
+                        return Failure("permutation:correct-does-not-follow-the-key-order", x=x, y=y)
+            return OK
+    return f
+
+
+def ob_scalar_int_inputs():
+    def f():
+        with env(rng_layer()):
+            lo, hi = sym.real("lb"), sym.real("ub")
+            sym.assume(lo < hi)
+            c = M.ContinuousVariable(name="c", lower_bound=lo, upper_bound=hi)
+            k = sym.integer("k", -5, 5)
+            y = c.correct(k)
+            if not member(y, ("cont", lo, hi)) or (lo <= k <= hi and y != k):
+                return Failure("continuous:integer-input", k=k, y=y)
+            d = M.DiscreteVariable(name="d", choices=["a", "b", "c"])
+            z = d.correct(k)
+            if not member(z, ("disc", 3)) or (0 <= k <= 2 and z != k) or d.correct(z) != z:
+                return Failure("discrete:integer-input", k=k, z=z)
+            return OK
+    return f
+
+
 def ob_permutation_members(n):
     def f():
         with env(rng_layer()):
@@ -315,6 +352,9 @@ def obligations(tier):
     for n in range(1, (5 if th else 4) + 1):
         obs.append(Ob(f"permutation_values[n={n}]", ob_permutation_values(n), 600 if n >= 5 else 120))
         obs.append(Ob(f"permutation_members[n={n}]", ob_permutation_members(n), 600 if n >= 5 else 120))
+    obs.append(Ob("scalar_int_inputs", ob_scalar_int_inputs(), 120))
+    for n in range(1, (4 if th else 3) + 1):
+        obs.append(Ob(f"permutation_int_keys[n={n}]", ob_permutation_int_keys(n), 600))
     for cls in ("ContinuousMultiVariable", "MultiObjectiveVariable"):
         obs.append(Ob(f"cont_multi_lengths[{cls}]", ob_cont_multi_lengths(cls), 30))
         for k in range(1, (4 if th else 3) + 1):
